@@ -2,7 +2,7 @@
 from hypothesis import strategies as st
 from ..runner import Outcome
 from .. import ops as O, eqv, fresh
-from ..hist import HistoryRun, bundle_sig, formula_features, formulas_by_col, CROSS_ROW, is_cycle_error_pair, summary_groupby_record_valued
+from ..hist import HistoryRun, bundle_sig, formula_features, formulas_by_col, CROSS_ROW, is_cycle_error_pair, summary_groupby_record_valued, is_keyerror
 
 ID = 'C05'
 LEVEL = 'exploration'
@@ -74,6 +74,19 @@ def run_case(case):
     if real:
       t, c, r, va, vb = real[0]
       feats = formula_features(fm.get((t, c), ''))
+      if eqv.is_error_cell(va) and len(va) > 1 and va[1] == 'NameError' and all(
+          eqv.is_error_cell(x[3]) and x[3][1] == 'NameError' for x in real):
+        out.fail('C05:stale:NameError-not-recomputed-after-table-added',
+                 'cell %s.%s[%s] still holds NameError after a table it names was added (fresh engine: %r)' % (
+                   t, c, r, vb), [[t2, c2, r2, a2, b2] for (t2, c2, r2, a2, b2) in real[:6]])
+        return True
+      if all(is_keyerror(x[3]) != is_keyerror(x[4]) for x in real) and \
+         set(feats) & set(['lookupRecords', 'lookupOne', 'order_by', 'sort_by', 'PREVIOUS', 'NEXT', 'RANK']):
+        out.fail('C05:stale:lookup-KeyError-stale',
+                 'cell %s.%s[%s]: lookup on a column that was removed/added keeps its old result '
+                 '(incremental %r, fresh %r)' % (t, c, r, va, vb),
+                 [[t2, c2, r2, a2, b2] for (t2, c2, r2, a2, b2) in real[:6]])
+        return True
       out.fail('C05:stale:%s:%s' % (sig, '+'.join(feats)),
                'after %r cell %s.%s[%s] holds %r but a fresh engine computes %r (formula %r)' % (
                  s.uas, t, c, r, va, vb, fm.get((t, c))),
